@@ -31,18 +31,19 @@ const (
 )
 
 type c01Sess struct {
-	ctx   context.Context
-	root  string
-	ws    bool
-	s     *Server
-	cl    *zzClient
-	disk  [3]string
-	buf   [3]string
-	open  [3]bool
-	edits [3]int   // how many times the document was edited in the editor
-	ver   [3]int32 // document version of the current editing session (restarts at 1 with every didOpen)
-	incOn bool     // main currently includes inc
-	hold  bool     // analyses started from now on stay pending
+	ctx       context.Context
+	root      string
+	ws        bool
+	s         *Server
+	cl        *zzClient
+	disk      [3]string
+	buf       [3]string
+	open      [3]bool
+	edits     [3]int   // how many times the document was edited in the editor
+	ver       [3]int32 // document version of the current editing session (restarts at 1 with every didOpen)
+	incOn     bool     // main currently includes inc
+	hold      bool     // analyses started from now on stay pending
+	pendingOp int      // the operation whose analysis is still pending at the end (-1: none)
 }
 
 var c01SessNames = [3]string{"main.journal", "incl.journal", "leaf.journal"}
@@ -238,9 +239,14 @@ func c01RunSession(steps int) (w *c01Sess, ws bool, settled bool) {
 	// each document was analysed after its own changes only; 2 pending - in addition the analysis
 	// started by the LAST operation has not run yet when the request arrives
 	end := zzverif.Choice("settle", 3)
+	w.pendingOp = -1
 	for st := 0; st < steps; st++ {
 		w.hold = end == 2 && st == steps-1
-		w.apply(zzverif.Choice("op"+zzverif.Itoa(st), c01NOps))
+		op := zzverif.Choice("op"+zzverif.Itoa(st), c01NOps)
+		if w.hold {
+			w.pendingOp = op
+		}
+		w.apply(op)
 		if chatty && !w.hold {
 			w.askAll()
 		}
@@ -297,6 +303,10 @@ func verifC01Session(steps int, requests []int) {
 	otherUnsaved := w.open[1] && w.buf[1] != w.disk[1] && from == 0 || w.open[0] && from == 1
 	if got[0] != want[0] && !ws && otherUnsaved && c01FromAnalysis(want[0]) && zzverif.Known(c01ClsOtherBuffer) {
 		zzverif.Reach("kf:" + c01ClsOtherBuffer)
+	} else if got[0] != want[0] && !ws && w.pendingOp == c01OpToggleInclude && c01FromTree(want[0]) && zzverif.Known(c01ClsPending) {
+		// same cause, seen through the MEMBERSHIP of the tree: the pending change added or removed
+		// main's include line; references and definition still walk the files of the last analysis
+		zzverif.Reach("kf:" + c01ClsPending)
 	} else if got[0] != want[0] && !ws && !settled && c01FromAnalysis(want[0]) && zzverif.Known(c01ClsPending) {
 		// the requesting document's last analysis predates a change elsewhere (c01_fresh.go)
 		zzverif.Reach("kf:" + c01ClsPending)
@@ -304,6 +314,16 @@ func verifC01Session(steps int, requests []int) {
 		zzverif.Assert(got[0] == want[0], "C01: after a session of edits and requests a feature answer differs from a fresh server's answer in the same state")
 	}
 	zzverif.Reach("C01.session.end")
+}
+
+// c01FromTree: answers that list locations in the files of the requesting document's include tree
+func c01FromTree(answer string) bool {
+	for _, n := range []string{"references: ", "definition: "} {
+		if len(answer) >= len(n) && answer[:len(n)] == n {
+			return true
+		}
+	}
+	return false
 }
 
 // quick: 2 steps, the requests that read shared state
